@@ -116,3 +116,64 @@ Proof.
 Qed.
 Lemma go_bytes_eqb_eq a b : go_list_eqb N.eqb a b = true <-> a = b.
 Proof. apply go_list_eqb_eq. intros x y. apply N.eqb_eq. Qed.
+
+(* ---- a few functions of package strings / bytes over octet lists ---- *)
+
+(* strings.ToLower / strings.EqualFold restricted to ASCII input (every octet < 128): only then do
+   they coincide with Go's Unicode-aware functions; the translator emits them only for spec items
+   that declare "ascii_strings": true, and the user states the restriction *)
+Definition go_ascii_lower_byte (c : N) : N := if ((65 <=? c) && (c <=? 90))%N then (c + 32)%N else c.
+Definition go_ascii_lower (s : list N) : list N := map go_ascii_lower_byte s.
+Definition go_equal_fold_ascii (a b : list N) : bool :=
+  go_list_eqb N.eqb (go_ascii_lower a) (go_ascii_lower b).
+
+Fixpoint go_index_byte_from (s : list N) (c : N) (i : Z) : Z :=
+  match s with
+  | [] => -1
+  | x :: r => if (x =? c)%N then i else go_index_byte_from r c (i + 1)
+  end.
+Definition go_index_byte (s : list N) (c : N) : Z := go_index_byte_from s c 0.
+Fixpoint go_last_index_byte_from (s : list N) (c : N) (i : Z) (best : Z) : Z :=
+  match s with
+  | [] => best
+  | x :: r => go_last_index_byte_from r c (i + 1) (if (x =? c)%N then i else best)
+  end.
+Definition go_last_index_byte (s : list N) (c : N) : Z := go_last_index_byte_from s c 0 (-1).
+
+Fixpoint go_contains (s sub : list N) : bool :=
+  go_has_prefix N.eqb s sub ||
+  match s with
+  | [] => false
+  | _ :: r => go_contains r sub
+  end.
+Definition go_trim_prefix (s p : list N) : list N :=
+  if go_has_prefix N.eqb s p then skipn (length p) s else s.
+Definition go_trim_suffix (s p : list N) : list N :=
+  if go_has_suffix N.eqb s p then firstn (length s - length p) s else s.
+
+Lemma go_ascii_lower_length s : length (go_ascii_lower s) = length s.
+Proof. apply map_length. Qed.
+Lemma go_ascii_lower_idem s : go_ascii_lower (go_ascii_lower s) = go_ascii_lower s.
+Proof.
+  unfold go_ascii_lower. rewrite map_map. apply map_ext. intros c. unfold go_ascii_lower_byte.
+  destruct ((65 <=? c) && (c <=? 90))%N eqn:E; [|rewrite E; reflexivity].
+  destruct ((65 <=? c + 32) && (c + 32 <=? 90))%N eqn:F; [|reflexivity]. lia.
+Qed.
+Lemma go_index_byte_nil c : go_index_byte [] c = -1.
+Proof. reflexivity. Qed.
+
+(* miekg/dns.IsFqdn on ASCII input: the name ends in a dot that is not escaped, i.e. preceded by an
+   even number of backslashes (emitted only under "ascii_strings": true; on non-ASCII input the
+   library counts runes, not octets) *)
+Fixpoint go_trailing_backslashes (rev : list N) : nat :=
+  match rev with
+  | 92%N :: r => S (go_trailing_backslashes r)
+  | _ => O
+  end.
+Definition go_is_fqdn_ascii (s : list N) : bool :=
+  match rev s with
+  | 46%N :: r => Nat.even (go_trailing_backslashes r)
+  | _ => false
+  end.
+Definition go_fqdn_ascii (s : list N) : list N := if go_is_fqdn_ascii s then s else s ++ [46%N].
+Definition go_canonical_name_ascii (s : list N) : list N := go_ascii_lower (go_fqdn_ascii s).
